@@ -6,6 +6,7 @@
 -/
 import VModel.Json
 import VProofs.Sort
+import VProofs.JsonClosure
 import VGen.Versions
 namespace V.C01
 open V V.Json List
@@ -87,5 +88,117 @@ theorem enforced_versions :
     ∧ (VGen.roomVersions.filter (fun r => r.canonicalJSONCheck == "noVerifyCanonicalJSON")).map (·.key)
       = ["1", "2", "3", "4", "5"] := by
   decide
+
+/-! ### model = specification: `CanonicalJSON` computes the canonical encoding of the parsed value
+
+`canonical` is the byte-level model of `CanonicalJSON` (gate on `gjson.Valid`, `CompactJSON`, `SortJSON`);
+`encodeCanon p.toJVal` is the specification (`canonicalSpec`): parse, forget every spelling, re-encode with
+sorted keys, no whitespace, shortest escapes, `-0` as `0`. -/
+
+/-- The hypothesis the equivalence really needs: the text parses and no string contains a *lone*
+    surrogate escape (`CompactJSON` drops those, gjson decodes them as U+FFFD).  Neither UTF-8 validity of
+    the raw bytes (they pass through both sides unchanged) nor distinct keys (model and specification use
+    the same deterministic sort) are needed. -/
+theorem canonical_eq_spec_general (t : Bytes) (p : PVal) (hp : parse t = some p)
+    (hs : p.surrogatesOk = true) : canonical t = .ok (encodeCanon p.toJVal) :=
+  canonical_of_parse hp hs
+
+/-- **C01, main theorem.** For every valid JSON text (well-formed Unicode, no duplicate object keys)
+    the model of `CanonicalJSON` returns exactly the canonical encoding of the value the text denotes. -/
+theorem canonical_eq_spec (t : Bytes) (p : PVal) (hp : parse t = some p) (_hd : p.noDupKeys = true)
+    (hw : p.wellFormed = true) : canonical t = .ok (encodeCanon p.toJVal) :=
+  canonical_of_parse hp (surrogatesOk_of_wellFormed p hw)
+
+/-- The same, phrased with `canonicalSpec`. -/
+theorem canonical_eq_canonicalSpec (t : Bytes) (p : PVal) (hp : parse t = some p) (hd : p.noDupKeys = true)
+    (hw : p.wellFormed = true) : canonicalSpec t = some (encodeCanon p.toJVal) ∧
+      canonical t = .ok (encodeCanon p.toJVal) :=
+  ⟨by simp [canonicalSpec, hp], canonical_eq_spec t p hp hd hw⟩
+
+/-- Invalid JSON is rejected. -/
+theorem canonical_rejects_invalid (t : Bytes) (h : parse t = none) : canonical t = .error .badJSON := by
+  simp [canonical, valid, h]
+
+/-- Any two texts denoting the same value (member order, whitespace, escape spellings and `-0`/`0` aside)
+    canonicalise to identical bytes. -/
+theorem canonical_unique (t₁ t₂ : Bytes) (p₁ p₂ : PVal) (h₁ : parse t₁ = some p₁) (h₂ : parse t₂ = some p₂)
+    (hd₁ : p₁.noDupKeys = true) (hd₂ : p₂.noDupKeys = true) (hw₁ : p₁.wellFormed = true) (hw₂ : p₂.wellFormed = true)
+    (he : p₁.toJVal.sorted.normNums = p₂.toJVal.sorted.normNums) : canonical t₁ = canonical t₂ := by
+  rw [canonical_eq_spec t₁ p₁ h₁ hd₁ hw₁, canonical_eq_spec t₂ p₂ h₂ hd₂ hw₂]
+  unfold encodeCanon
+  rw [← encode_normNums p₁.toJVal.sorted, ← encode_normNums p₂.toJVal.sorted, he]
+
+/-- …and only those: texts with the same canonical bytes denote the same value. -/
+theorem canonical_unique_conv (t₁ t₂ : Bytes) (p₁ p₂ : PVal) (h₁ : parse t₁ = some p₁) (h₂ : parse t₂ = some p₂)
+    (hd₁ : p₁.noDupKeys = true) (hd₂ : p₂.noDupKeys = true) (hw₁ : p₁.wellFormed = true) (hw₂ : p₂.wellFormed = true)
+    (he : canonical t₁ = canonical t₂) : p₁.toJVal.sorted.normNums = p₂.toJVal.sorted.normNums := by
+  rw [canonical_eq_spec t₁ p₁ h₁ hd₁ hw₁, canonical_eq_spec t₂ p₂ h₂ hd₂ hw₂] at he
+  exact encodeCanon_inj _ _ (parse_numsOk h₁) (parse_numsOk h₂) (by simpa using he)
+
+/-- The output is valid JSON denoting the same value: it parses, to the input's value with members sorted
+    and `-0` written `0`; it has no duplicate keys and no surrogate escapes. -/
+theorem canonical_output_valid (t : Bytes) (p : PVal) (hp : parse t = some p) (hd : p.noDupKeys = true)
+    (hw : p.wellFormed = true) :
+    ∃ out q, canonical t = .ok out ∧ parse out = some q ∧ q.toJVal = p.toJVal.sorted.normNums ∧
+      q.surrogatesOk = true := by
+  obtain ⟨h1, h2⟩ := parse_encodeCanon p.toJVal (parse_numsOk hp)
+  exact ⟨_, _, canonical_eq_spec t p hp hd hw, h1, h2, ofJVal_surrogatesOk _⟩
+
+/-- Canonicalising twice changes nothing. -/
+theorem canonical_idem (t : Bytes) (p : PVal) (hp : parse t = some p) (hd : p.noDupKeys = true)
+    (hw : p.wellFormed = true) :
+    ∃ out, canonical t = .ok out ∧ canonical out = .ok out :=
+  ⟨_, canonical_eq_spec t p hp hd hw,
+    canonical_encodeCanon p.toJVal (parse_numsOk hp) ((noDupKeys_toJVal p).trans hd)⟩
+
+/-- Different values have different canonical bytes (what the signing properties rely on).  Number
+    literals must be of the JSON grammar (`numsOk`; every parsed value is), strings are arbitrary bytes. -/
+theorem encodeCanon_injective (v w : JVal) (hv : v.numsOk = true) (hw : w.numsOk = true)
+    (h : encodeCanon v = encodeCanon w) : v.sorted.normNums = w.sorted.normNums :=
+  encodeCanon_inj v w hv hw h
+
+/-- The enforced variant rejects every text containing a number that fails `numOk`
+    (non-integer literal, `-0`, or magnitude above 2^53-1), wherever it is nested. -/
+theorem enforced_rejects (t : Bytes) (p : PVal) (hp : parse t = some p)
+    (hbad : ∃ lit ∈ p.numbers, numOk lit = false) : enforcedOk t = some false := by
+  obtain ⟨lit, hmem, hno⟩ := hbad
+  have : p.numbersOk = false := by
+    rw [numbersOk_eq_all]
+    cases h : p.numbers.all numOk with
+    | false => rfl
+    | true => rw [List.all_eq_true] at h; rw [h lit hmem] at hno; cases hno
+  simp [enforcedOk, hp, this]
+
+/-- …and accepts exactly when every number passes. -/
+theorem enforced_iff (t : Bytes) (p : PVal) (hp : parse t = some p) :
+    enforcedOk t = some (p.numbers.all numOk) := by
+  simp [enforcedOk, hp, numbersOk_eq_all]
+
+/-! ### Non-vacuity: a concrete text satisfying the hypotheses of the theorems above -/
+
+/-- `{"b":-0, "a\u00e9":[1.5e3,"x\n\ud83d\ude00\/"], "a":{"k":null}}` -/
+def exampleText : Bytes :=
+  [0x7B, 0x22, 0x62, 0x22, 0x3A, 0x2D, 0x30, 0x2C, 0x20, 0x22, 0x61, 0x5C, 0x75, 0x30, 0x30, 0x65, 0x39, 0x22, 0x3A, 0x5B, 0x31, 0x2E, 0x35, 0x65, 0x33, 0x2C, 0x22, 0x78, 0x5C, 0x6E, 0x5C, 0x75, 0x64, 0x38, 0x33, 0x64, 0x5C, 0x75, 0x64, 0x65, 0x30, 0x30, 0x5C, 0x2F, 0x22, 0x5D, 0x2C, 0x20, 0x22, 0x61, 0x22, 0x3A, 0x7B, 0x22, 0x6B, 0x22, 0x3A, 0x6E, 0x75, 0x6C, 0x6C, 0x7D, 0x7D]
+
+/-- `{"a":{"k":null},"aé":[1.5e3,"x\n😀/"],"b":0}` -/
+def exampleCanon : Bytes :=
+  [0x7B, 0x22, 0x61, 0x22, 0x3A, 0x7B, 0x22, 0x6B, 0x22, 0x3A, 0x6E, 0x75, 0x6C, 0x6C, 0x7D, 0x2C, 0x22, 0x61, 0xC3, 0xA9, 0x22, 0x3A, 0x5B, 0x31, 0x2E, 0x35, 0x65, 0x33, 0x2C, 0x22, 0x78, 0x5C, 0x6E, 0xF0, 0x9F, 0x98, 0x80, 0x2F, 0x22, 0x5D, 0x2C, 0x22, 0x62, 0x22, 0x3A, 0x30, 0x7D]
+
+set_option maxRecDepth 10000 in
+/-- the example text parses, has distinct keys and well-formed Unicode (hypotheses of `canonical_eq_spec`,
+    `canonical_unique`, `canonical_output_valid`, `canonical_idem`) … -/
+example : (parse exampleText).any (fun p => p.noDupKeys && p.wellFormed && p.toJVal.numsOk) = true := by decide
+
+set_option maxRecDepth 10000 in
+/-- … and its canonical form is what one expects (members sorted, escapes minimised, `-0` as `0`). -/
+example : (canonical exampleText).toOption = some exampleCanon ∧
+    (canonical exampleCanon).toOption = some exampleCanon := by decide
+
+/-- `[1, {"a": 1.5}]` contains the non-integer literal `1.5` (hypothesis of `enforced_rejects`). -/
+example : (parse [0x5B, 0x31, 0x2C, 0x20, 0x7B, 0x22, 0x61, 0x22, 0x3A, 0x20, 0x31, 0x2E, 0x35, 0x7D, 0x5D]).any
+    (fun p => p.numbers.any (fun lit => !numOk lit)) = true := by decide
+
+/-- invalid texts exist (hypothesis of `canonical_rejects_invalid`): `{"a":1,}` -/
+example : parse [0x7B, 0x22, 0x61, 0x22, 0x3A, 0x31, 0x2C, 0x7D] = none := by decide
 
 end V.C01
